@@ -128,7 +128,9 @@ HexahedralMeshTopologyKernel::add_cell(std::vector<HalfFaceHandle> _halffaces, b
 #ifndef NDEBUG
             std::cerr << "The current halfface is invalid!" << std::endl;
 #endif
-            continue;
+            // The given halffaces do not surround the first one: there is
+            // nothing to re-order (and no slot may stay invalid).
+            return TopologyKernel::InvalidCellHandle;
         }
         ordered_halffaces[orderTop[idx]] = ahfh;
         ++idx;
